@@ -162,10 +162,72 @@ def check_refit():
     return None
 
 
+def check_integer_data(rng):
+    """whole-number data handed over as an integer array / nested lists of ints (counts, grid indices): the mixture invariants hold
+    and the fit equals the fit of the same points stored as float64"""
+    for d, n in ((1, 40), (2, 120), (3, 200)):
+        Xi = np.vstack([rng.randint(0, 7, size=(n // 2, d)), rng.randint(9, 15, size=(n - n // 2, d))]).astype(np.int64)
+        forms = (("int64", Xi), ("int32", Xi.astype(np.int32)), ("nested lists of ints", Xi.tolist()))
+        for ct in ("full", "diag"):
+            for K in (1, 2):
+                ref = GaussianMixture(n_components=K, covariance_type=ct, random_state=42).fit(Xi.astype(float))
+                for fname, Xf in forms:
+                    e = check_mixture(f"lattice d={d}", np.asarray(Xf), "none", None, ct, K) if fname != "nested lists of ints" else None
+                    if e:
+                        return f"data stored as {fname}: {e}", {"d": d, "n": n, "covariance_type": ct, "n_components": K, "storage": fname}
+                    try:
+                        g = GaussianMixture(n_components=K, covariance_type=ct, random_state=42).fit(Xf)
+                    except Exception as ex:
+                        return f"data stored as {fname}: fit raised {type(ex).__name__}: {ex}", {"d": d, "storage": fname}
+                    if not (np.all(np.isfinite(g.weights_)) and np.allclose(g.weights_, ref.weights_, rtol=1e-8, atol=1e-10)
+                            and np.allclose(g.means_, ref.means_, rtol=1e-8, atol=1e-10) and np.allclose(g.covariances_, ref.covariances_, rtol=1e-8, atol=1e-10)):
+                        return (f"the fit of whole-number data stored as {fname} differs from the fit of the same points stored as float64 "
+                                f"(weights {np.round(g.weights_, 4).tolist()} vs {np.round(ref.weights_, 4).tolist()})"), {"d": d, "n": n, "covariance_type": ct, "n_components": K, "storage": fname}
+        if d <= 2:
+            for normalize in (False, True):
+                e = check_hier(f"lattice d={d}", Xi, "unit", np.ones(len(Xi)), None, normalize, 1.0)
+                if e:
+                    return f"integer-typed data, hierarchical model (normalize={normalize}): {e}", {"d": d, "normalize": normalize, "storage": "int64"}
+    return None, None
+
+
+def check_dimension_sequence():
+    """one default-configured estimator reused for data sets of increasing dimension: the minimum cluster size is 2*d of the data set
+    being fitted (the constructor was given min_points=None), whatever was fitted before"""
+    for d1, d2, m in ((1, 6, 4), (2, 5, 6), (1, 3, 3)):
+        r = np.random.RandomState(10 * d1 + d2)
+        first = np.vstack([r.standard_normal((60, d1)), 8.0 + r.standard_normal((60, d1))])
+        big = r.standard_normal((60, d2))
+        groups = [30.0 * (k + 1) * np.eye(d2)[k % d2] + 0.01 * r.standard_normal((m, d2)) for k in range(2)]
+        second = np.vstack([big] + groups)
+        for normalize in (False, True):
+            fresh = HierarchicalGaussianMixture(normalize=normalize)
+            fresh.fit(second, np.ones(len(second)))
+            h = HierarchicalGaussianMixture(normalize=normalize)
+            h.fit(first, np.ones(len(first)))
+            h.fit(second, np.ones(len(second)))
+            for who, mdl in (("fresh", fresh), ("reused (fitted to %d-d data before)" % d1, h)):
+                K, lab = mdl.n_clusters_, np.asarray(mdl.labels_)
+                sizes = np.bincount(lab, minlength=K)
+                if K > 1 and sizes.min() < 2 * d2:
+                    return (f"{who} default estimator on {d2}-d data: cluster sizes {sizes.tolist()} with minimum size 2*d = {2 * d2}: an accepted split "
+                            f"left a child below the minimum"), {"d_first": d1, "d_second": d2, "group_size": m, "normalize": normalize}
+    return None, None
+
+
 def main():
     p = json.load(open(sys.argv[1]))
     rng = np.random.RandomState(int(p.get("seed", 0)))
     tried = 0
+    for fn, args in ((check_integer_data, (np.random.RandomState(77),)), (check_dimension_sequence, ())):
+        tried += 1
+        try:
+            e, what = fn(*args)
+        except Exception as ex:
+            e, what = f"{fn.__name__}: {type(ex).__name__}: {ex}", {"case": fn.__name__}
+        if e:
+            print(json.dumps({"reproduced": True, "tried": tried, "detail": e, "input": what}))
+            return
     e = check_refit()
     tried += 1
     if e:
